@@ -101,8 +101,68 @@ if not os.environ.get('C10_ALL'):
      # dynamic operand (the resolver branch "dynamic view over a dynamic array"): utl::vector-backed ndarray_t returns a verdict (850 s / 12 GB at the constant shape (1,2)): thorough tier;
      # std::vector-backed dynamic_ndarray: no verdict in 900 s (formula construction) - optional
      _et('adds_u', 0, [], [{'MAXE': 2, 'SH0': 1, 'SH1': 2}, {'MAXE': 2, 'SH0': 2, 'SH1': 1}], mem_gb=14, timeout=3000),
+     _et('add_fu', 0, [], [{'MAXE': 2, 'SH0': 1, 'SH1': 2}], mem_gb=14, timeout=3000, optional=True),   # fixed unsigned lhs + utl-dynamic uint8 rhs: the binary branch of the default resolver
      _et('adds_d', 0, [], [{'MAXE': 2, 'SH0': 1, 'SH1': 2}], mem_gb=14, timeout=1800, optional=True),
     ]
+# ---- "front" family: array::fn(all optional arguments) vs view::fn(same arguments) vs NumPy (kernels/C10_front.cpp, harnesses/C10_front.c); one TU per part
+_FPARTS = (1, 2, 3, 4, 5, 6, 7, 8)
+for _p in _FPARTS:
+    KERNELS['C10_front_%d' % _p] = dict(src='kernels/C10_front.cpp', flags=['-DNDEBUG', '-DFR_PART=%d' % _p])
+def _fr(name, part, quick, thorough=None, cells=8, **kw):
+    n = cells + 2
+    US = ['in_data8.0:%d' % n, 'in_datap.0:%d' % n, 'in_data32.0:%d' % n, 'k_fill_u8.0:%d' % n, 'k_fill_u32.0:%d' % n, 're:evaluator_t:%d' % n,
+          're:_M_default_append|_M_fill_insert|_M_realloc:%d' % n, 're:^ll_mem:%d' % (4*n + 2), 're:^k_front_:%d' % n]
+    def cf(c): d = {'FR_PART': part, 'MAXE': 2, '_unwind': 6, '_unwindset': US}; d.update(c); return d
+    fe = name.replace('_reduce', '.reduce').replace('_accumulate', '.accumulate').replace('_outer', '.outer') if part in (1, 6) else name
+    return dict(name='front_' + name, src='harnesses/C10_front.c', func='h_front_' + name, kernels=['C10_front_%d' % part],
+                bounds='array::%s with ALL optional value arguments given vs view:: with the same arguments vs a NumPy reference in the harness; hybrid operand(s) with extents 1..2: shape symbolic (no SH0), or the per-query '
+                       'constant shape SH0 x SH1 (second operand extent SHM) and per-query constant axis AXIS where the all-symbolic query does not return in the budget (then in the thorough tier); element data, the other run-time arguments '
+                       '(initial, shifts, widths, indices, ...) and the result index symbolic; dtype / keepdims are compile-time arguments; product harnesses: cells with PBITS symbolic low bits; '
+                       'result resolver: the front end\'s default (RowMajorResolver)' % fe,
+                quick=[cf(c) for c in quick], thorough=[cf(c) for c in (thorough if thorough is not None else quick)], **kw)
+E2 = {}                                   # everything symbolic, extents 1..2
+E2T = {'_mem_gb': 12, '_timeout': 1800}   # the same in the thorough tier, with its budget
+def CA(*a): return {'CA%d' % i: (a[i] if i < len(a) else 0) for i in range(5)}   # per-query constant size-determining arguments
+def K(s0, s1, **kw): d = {'SH0': s0, 'SH1': s1}; d.update(kw); return d
+RED = [K(2, 2, AXIS=-1)]            # reductions / scans: per-query constant shape and axis (all-symbolic: 130-250 s, thorough)
+REDT = [K(2, 1, AXIS=0), E2T]
+PROD = [K(2, 2, AXIS=-1, PBITS=2)]
+PRODT = [K(2, 1, AXIS=0, PBITS=2), K(2, 2, PBITS=2)]
+KFC = {'KF_C10_FRONT_CONCATENATE_NEGAXIS': 1}   # TEMPORARY exclusions of pending findings (see PENDING_FINDINGS)
+KFS = {'KF_C10_FRONT_STACK_NEGAXIS': 1}
+if not os.environ.get('C10_ALL'):
+    # quick: one or two cheap configurations per front end (measured 4-65 s each on the loaded machine, comments: s); thorough: the other enumerated shapes and the all-symbolic query
+    HARNESSES += [
+     # ufunc members
+     _fr('add_reduce', 1, RED, REDT), _fr('add_accumulate', 1, RED, REDT), _fr('add_outer', 1, [K(2, 2, SHM=2)], [E2]),                       # 8 / 8 / 5; symbolic add_outer 34-48
+     _fr('multiply_reduce', 1, PROD, PRODT), _fr('multiply_accumulate', 1, PROD, [K(2, 2, AXIS=-2, PBITS=8), K(2, 1, AXIS=0, PBITS=2), K(2, 2, PBITS=2)]),   # 8 / 7
+     _fr('subtract', 1, [K(2, 1, SHM=2), K(2, 2, SHM=1)], [K(2, 2, SHM=2), dict(E2T)], mem_gb=8),                                           # 19 each; symbolic 240 s / 9 GB
+     # reductions / scans
+     _fr('sum', 2, RED, REDT), _fr('prod', 2, PROD, PRODT), _fr('cumsum', 2, RED, REDT), _fr('cumprod', 2, PROD, PRODT),                    # 6-9 each
+     _fr('amax', 2, RED, REDT), _fr('amin', 2, RED, REDT), _fr('mean', 2, [K(2, 1, AXIS=0)], [K(2, 2, AXIS=-1), E2T]),                      # 7 / 7 / 21
+     # rearranging / replicating / selecting
+     _fr('reshape', 3, [K(2, 2)], [E2]), _fr('flatten', 3, [E2]), _fr('moveaxis', 3, [K(1, 2, SH2=2)], [K(2, 2, SH2=1), E2T], cells=8), _fr('swapaxes', 3, [E2]),   # reshape symbolic 64; 15; 45; 21
+     _fr('expand_dims', 3, [K(1, 2)], [K(2, 2), E2T]),                                                                                     # 24 (2x2: 49)
+     _fr('squeeze', 3, [K(1, 2), K(2, 1), K(2, 2), K(1, 1)], [E2T]), _fr('tile', 3, [K(1, 2)], [K(2, 1), K(2, 2), E2T], cells=16), _fr('repeat', 3, [K(1, 2)], [K(2, 2), E2T]),   # 4 each; 26; 27
+     _fr('roll', 3, [K(2, 2)], [E2]), _fr('take', 3, [K(1, 2)], [K(2, 2), E2T]),                                                           # roll symbolic 40; take 17
+     # joining / windowing / generating / linear algebra
+     _fr('concatenate', 4, [K(2, 2, SHM=2, **KFC), K(1, 2, SHM=2, **KFC)], [dict(E2T, **KFC)]),                                            # 9-14
+     _fr('stack', 5, [K(2, 2, AXIS=1, **KFS), K(1, 2, AXIS=2, **KFS), K(2, 1, AXIS=0, **KFS)], [K(2, 2, **KFS), dict(E2T, **KFS)]),        # 5 each; symbolic axis: 68-83 s per constant shape
+     _fr('pad', 4, [K(1, 2, **CA(0, 1, 1, 0))], [K(2, 2, **CA(1, 0, 0, 1)), E2T], cells=9, mem_gb=6),                                       # 27 (2x2: 41-74 s, 3.8 GB)
+     _fr('slice', 4, [K(2, 2, **CA(0, 2, 2, 1, 2)), K(2, 2, **CA(1, 2, 1, 0, 2))], [E2T]), _fr('broadcast_to', 4, [K(2, 1, **CA(1, 2, 2))], [K(1, 2, **CA(2, 2, 2)), E2T]),   # 14-18; 20 (36)
+     _fr('where', 4, [K(1, 2)], [K(2, 2), E2T]), _fr('diagonal', 4, [E2]), _fr('tril', 4, [K(1, 2)], [K(2, 2), E2T]), _fr('triu', 4, [K(2, 1)], [K(2, 2), E2T]),   # 14; 9; 12; 11
+     _fr('full_like', 4, [K(1, 2)], [K(2, 2), E2T]), _fr('zeros_like', 4, [K(2, 1)], [E2T]),                                               # 10; 11
+     _fr('arange', 4, [CA(-2, 3, 2)], [CA(2, -3, -1), dict(E2T)]), _fr('eye', 4, [K(1, 2)], [K(2, 2), E2T]),                                # 20; 18
+     _fr('matmul_sl', 8, [K(2, 2, SHM=2)], [K(1, 2, SHM=1), K(2, 2, SHM=2)]),   # matmul with array/slice.hpp in the same TU (ADL)
+     _fr('matmul', 5, [K(2, 2, SHM=2)], [K(1, 2, SHM=1), K(2, 2, SHM=1), K(2, 1, SHM=2), dict(E2T)]), _fr('outer', 4, [K(1, 2, SHM=2)], [K(2, 2, SHM=2), E2T]),   # 20; (2x2: 41)
+     # members of the other integer binary ufuncs that have them (4-11 s each)
+    ] + [_fr('%s_%s' % (u, m), 6, (RED if m != 'outer' else [K(2, 2, SHM=2)]) if 'shift' not in u else ([dict(c, PBITS=3) for c in RED] if m != 'outer' else [K(2, 2, SHM=2, PBITS=3)]),
+             [dict(K(2, 1, AXIS=0), PBITS=3), dict(E2T, PBITS=3)])
+         for u in ('subtract', 'maximum', 'minimum', 'left_shift', 'right_shift') for m in ('reduce', 'accumulate', 'outer')] + [_fr('multiply_outer', 6, [K(2, 2, SHM=2)], [E2T])] + [
+     # further front ends with optional arguments
+     _fr('tri', 7, [K(2, 2)], [K(1, 2), E2T]),                                                                                              # 20
+     # attempted, no verdict (thorough only, optional): diagflat out of memory at 6 GB (std::vector result of (n+|k|)^2 cells) at constant shape and k; var (float pipeline mean/subtract/square/sum/divide) timeout 600 s at constant shape and axis
+     _fr('diagflat', 7, [], [K(1, 2, **CA(1)), K(2, 1, **CA(-1))], cells=9, optional=True, mem_gb=12), _fr('var', 7, [], [K(2, 2, AXIS=-1)], optional=True, mem_gb=8)]
 _WHAT_KF = ('array::eval(view) with its DEFAULT resolver template argument (eval_t) chooses the result buffer from the OPERAND type: over a hybrid operand of capacity C the result is a hybrid array of '
             'capacity C even for views that are larger than their operand (tile, pad). The refused resize leaves the result at its default shape, the evaluator returns early (shape mismatch: '
             'nmtools_verif_eval_shape_mismatch and the capacity hook fire) and eval returns an unwritten array of shape (1,1) instead of the view\'s shape. array::tile / array::pad (RowMajorResolver) are not affected. ')
@@ -119,6 +179,23 @@ PENDING_FINDINGS = [
  dict(id='C10-eval-default-resolver-capacity', harness='ev_pad_old4', exclude_define='KF_C10_EVAL_DEFAULT_RESOLVER_CAPACITY', witness_config={'MAXE': 2, 'RES': 3},
       witness_inputs=['0x1', '0x2', '0x0', '0x0', '0x0', '0x0', '0x1', '0x1', '0x1', '0x0', '0x0', '0x2', '0x0'],
       what=_WHAT_KF + 'Witness: capacity 4, a of shape (1,2) padded by (1,1,1,0): shape (3,3) = 9 elements (inside both the symbolic MAXE=2 and the constant-shape SH0=1,SH1=2 domains).'),
+]
+_WHAT_NEG = ('array::%s(a, b, axis) with a NEGATIVE axis evaluates exactly what view::%s builds, and that view ignores a negative axis (same defect as the open finding C04-concatenate-negative-axis: '
+             'index::shape_concatenate / index::concatenate compare the loop counter with the raw axis): eager and lazy agree with each other but not with NumPy. ')
+PENDING_FINDINGS += [
+ dict(id='C10-front-concatenate-negative-axis', harness='front_concatenate', exclude_define='KF_C10_FRONT_CONCATENATE_NEGAXIS', witness_config={'FR_PART': 4, 'MAXE': 2, 'SH0': 2, 'SH1': 2, 'SHM': 2},
+      witness_inputs=['0x2', '0x2', '0x1', '0x2', '0x3', '0x4', '0x2', '0x2', '0x5', '0x6', '0x7', '0x8', '0xffffffffffffffff', '0x0', '0x3', '0x0', '0x0'],
+      what=_WHAT_NEG % ('concatenate', 'concatenate') + 'Witness (inputs in harness order: a.shape, a data, b.shape, b data, axis, index): a = [[1,2],[3,4]], b = [[5,6],[7,8]], axis = -1: NumPy shape (2,4), nmtools (view and evaluated array) reports another shape; index (0,3) is outside it.'),
+ dict(id='C10-front-concatenate-negative-axis', harness='front_stack', exclude_define='KF_C10_FRONT_STACK_NEGAXIS', witness_config={'FR_PART': 5, 'MAXE': 2, 'SH0': 2, 'SH1': 2},
+      witness_inputs=['0x2', '0x2', '0x1', '0x2', '0x3', '0x4', '0x5', '0x6', '0x7', '0x8', '0xffffffffffffffff', '0x1', '0x1', '0x1', '0x0'],
+      what=_WHAT_NEG % ('stack', 'stack') + 'Witness: a = [[1,2],[3,4]], b = [[5,6],[7,8]], axis = -1: NumPy shape (2,2,2) with element (1,1,1) == 8.'),
+ # not an input region (no exclusion macro): depends on which headers share a translation unit
+ dict(id='C10-front-adl-eager-hijack', harness=None, exclude_define=None, witness_inputs=[],
+      what='view::matmul_t::view_at calls apply_slice UNQUALIFIED on its ndarray operands (view/matmul.hpp:416-425). When nmtools/array/array/slice.hpp is included in the same translation unit, argument-dependent lookup '
+           '(operands live in nmtools::array) selects the EAGER nmtools::array::apply_slice instead of view::apply_slice: view::matmul(a,b)(i,j) and array::matmul(a,b) then index an empty std::vector '
+           '(NMV-HOOK index 0 >= 0, std::out_of_range -> terminate) for every input, e.g. two hybrid (1,1) uint8 operands. Reproduce: #include "nmtools/array/array/slice.hpp" before "nmtools/array/array/matmul.hpp", '
+           'call nmtools::array::matmul on two ndarray_t operands. Same root cause at compile time: view::stack calls concatenate unqualified, so a TU that includes array/concatenate.hpp and calls view::stack / array::stack '
+           'does not compile ("call to concatenate is ambiguous"). The kernels of stack and matmul therefore live in their own TU (C10_front_5).'),
 ]
 OUTSIDE = [
  'PROGRAMS ATTEMPTED AND THEIR OUTCOME (hybrid 2-d operand; s = wall seconds on the loaded machine; res = old (eval default eval_t) / row / col):',
@@ -138,18 +215,28 @@ OUTSIDE = [
  'operands other than the hybrid 2-d kind as eval input (fixed-shape, clipped, dynamic operands; their static traits are C11); result kinds reached: hybrid (bounded buffer + fixed dim), std::vector buffer + fixed dim, bounded buffer + clipped 1-d shape (flatten), dynamic_ndarray (old resolver: flatten, sum)',
  'a caller-supplied output of the WRONG shape (the evaluator returns silently): the property only speaks about outputs of the right shape; the early return itself is an obligation (NMV-HOOK eval_shape_mismatch) in every query',
  'extents > 4, dims other than 2 for the operand, operations of C16/C17 (linear algebra, pooling) as programs',
+ 'front family (array::fn wrappers): covered are the front ends listed in the claim, each with all its optional VALUE arguments given and the default (row-major) resolver; not covered: the context / output / resolver arguments of the wrappers '
+ '(a front end over a maybe view - broadcasting ufuncs, pad, reshape ... - does not even compile with an output argument: optional<void>), casting::same_kind overloads, the float-only front ends '
+ '(stddev, vector_norm, softmax, linspace, activations, fmax/fmin/fmod/power members), trace, compress, expand, resize, split, sliding_window, kron, pooling/conv front ends; clip with scalar bounds over a hybrid operand does not compile; '
+ 'var(axis, dtype, ddof, keepdims) and diagflat(k) have kernels and harnesses (native gate passes) but no solver verdict: var timeout 600 s at a constant shape and axis, diagflat out of memory at 6 GB (thorough tier, optional); extents > 2; '
+ 'tile, repeat, take: the front end\'s own result (std::vector buffer; tile: out of memory at 6 GB, repeat / take 70-135 s) is replaced by a caller-supplied hybrid output passed through the wrapper\'s output argument; '
+ 'pad widths, slice bounds, broadcast_to target, arange bounds (they size a std::vector result) are per-query constants in the quick tier (symbolic: out of memory at 6 GB even at a constant operand shape); '
+ 'all-symbolic shape+axis queries of the reductions / scans and of the std::vector-result front ends (tile, pad, take, repeat, where, broadcast_to, slice, subtract, outer, matmul) are in the thorough tier only '
+ '(130-250 s / 3-9 GB, several out of memory at 6 GB); products: cells restricted to PBITS symbolic low bits (multiply.reduce with full 8-bit cells under a 16-bit initial value gave no verdict in 600 s even at a constant shape, axis and index; PBITS=2 returns in 8-18 s); a translation unit that includes array/slice.hpp together with array/matmul.hpp, or array/concatenate.hpp together with array/stack.hpp, is broken by unqualified calls (pending finding C10-front-adl-eager-hijack): stack and matmul are built in their own TU',
 ]
 ASSUMPTIONS = [
  'oracle is differential: eager result vs lazy view computed in the same kernel call; that the lazy view equals NumPy is C03-C08 (only the lazy SHAPE is pinned to NumPy here, to make the symbolic index range over the whole result)',
  'RES=1/2 pass RowMajorResolver / ColumnMajorResolver exactly as the array::fn front ends do (front_* harnesses call array::transpose / array::flip themselves)',
  'slices with empty selections are excluded from the argument domain (open finding of C05; only the index domain depends on it)',
  'pending finding excluded where stated: results larger than the operand capacity under eval\'s default resolver (KF_C10_EVAL_DEFAULT_RESOLVER_CAPACITY)',
+ 'front family: the oracle is eager == lazy AND both == a NumPy reference written in the harness; where nmtools documents C++ semantics instead of NumPy\'s the reference follows nmtools (np.outer on uint8 operands: the element is the C++ product, an int - element types are C07\'s subject); '
+ 'negative axes of concatenate / stack are excluded (pending finding, same defect as C04-concatenate-negative-axis); slices with empty selections are excluded as above',
 ]
 CLAIM = dict(
  text='For every program of the list that returned a verdict (see outside_the_claim for the complete attempt log) - depth-1 transpose, reshape, flatten, flip, slice, tile, pad, unary ufunc, ufunc with scalar, sum over an axis; '
       'depth-2/3 chains of them - over a hybrid 2-d operand with shape, data, every argument and the result index symbolic, the solver shows: the array returned by eval(view) (and by the array::transpose / array::flip front ends) '
       'exists, has the view\'s dim and shape and at every index the view\'s element, for the default, the row-major and the column-major result resolver; a caller-supplied output of the right shape with symbolic prior content '
-      'ends up equal to the view at every index; evaluating outer(inner(a)) once equals evaluating inner first and applying outer to the concrete result; the evaluated array stores the element type of the VIEW when it differs from that of the operand (uint8 operand + unsigned scalar: hybrid and fixed operands; utl-dynamic operand in the thorough tier); a zero-extent view (a[b:b, c:d]) and a 0-d result (reshape of one element to ()) are evaluated to arrays of exactly that shape; and the evaluator never returns early on a shape mismatch nor asks a bounded '
+      'ends up equal to the view at every index; each eager front end array::fn called with ALL its optional value arguments (axis incl. negative, dtype, initial, keepdims, offsets, fill values ...) returns an array of NumPy\'s dim, shape, element size and element, equal to view::fn of the same arguments (add / multiply / subtract / maximum / minimum / left_shift / right_shift .reduce, .accumulate, .outer; subtract with broadcasting; sum, prod, cumsum, cumprod, amax, amin, mean (shape and element size); reshape, flatten, moveaxis, swapaxes, expand_dims, squeeze, tile, repeat, roll, take, concatenate, stack, pad, slice, broadcast_to, where, diagonal, tril, triu, full_like, zeros_like, arange, eye, tri, matmul, outer; operands of extents 1..2), so a wrapper that drops or reorders one of its arguments is a counterexample; evaluating outer(inner(a)) once equals evaluating inner first and applying outer to the concrete result; the evaluated array stores the element type of the VIEW when it differs from that of the operand (uint8 operand + unsigned scalar: hybrid and fixed operands; utl-dynamic operand in the thorough tier); a zero-extent view (a[b:b, c:d]) and a 0-d result (reshape of one element to ()) are evaluated to arrays of exactly that shape; and the evaluator never returns early on a shape mismatch nor asks a bounded '
       'buffer to exceed its capacity - except for the pending finding (default resolver, results larger than the operand, tile/pad), whose region is excluded and whose witness is replayed.',
  note='Bounded: extents 1..2/3 (quick) and 1..3/4 (thorough) per program as listed in each query; programs are enumerated (types). Programs without a verdict are listed, not claimed. '
       'Trusted: clang-14 -O1 lowering, engine/ll2c.py, CBMC; validated per run by gate and witness assertions.')
